@@ -280,6 +280,7 @@ type Runner struct {
 	OnStep      func(r *Runner, i int, s *gen.Step) // before each step
 	OnFailed    func(r *Runner, present bool)       // after a commit that returned an error
 	Tracer      Injector                            // fault injector (nil: no faults)
+	GlobalFault bool                                // one fault is armed for the whole program (C08 enumeration)
 	FaultLog    []FaultOutcome
 	prevInline  map[string]bool
 	prevDepth   int
@@ -341,6 +342,9 @@ func (r *Runner) resolve(p []int) *bolt.Bucket {
 type Injector interface {
 	ArmFault(k int, partial int)
 	DisarmFault() (counted int, firedOp string, firedOff int64, metaWritten bool)
+	// Mark / SinceMark serve a fault armed for a whole program: what happened since the mark?
+	Mark()
+	SinceMark() (counted int, firedOp string, firedOff int64, metaWritten bool)
 }
 
 // FaultOutcome records one injected commit failure.
@@ -594,14 +598,25 @@ func (r *Runner) Fail(kind, format string, a ...any) { r.fail(kind, format, a...
 
 func (r *Runner) doStep(st *gen.Step) {
 	r.aux = st.How == "aux"
-	if st.Op == "commit" && strings.HasPrefix(st.How, "fail:") && r.Tx != nil {
+	if st.Op == "commit" && r.Tx != nil && r.Tracer != nil && (strings.HasPrefix(st.How, "fail:") || r.GlobalFault) {
 		r.commitWithFault(st)
 		return
 	}
 	exp := r.Sim.Apply(st)
 	switch st.Op {
 	case "open", "reopen":
+		if r.Tracer != nil && r.GlobalFault {
+			r.Tracer.Mark()
+		}
 		db, err := Open(r.Path, *st.Opts)
+		if err != nil && r.Tracer != nil && r.GlobalFault {
+			if _, firedOp, _, _ := r.Tracer.SinceMark(); firedOp != "" {
+				// the injected fault hit this Open: it must fail cleanly, and the next attempt must succeed
+				r.Stats.Transitions["failed-open:"+firedOp]++
+				r.FaultLog = append(r.FaultLog, FaultOutcome{FiredOp: "open:" + firedOp, Err: err.Error()})
+				db, err = Open(r.Path, *st.Opts)
+			}
+		}
 		if err != nil {
 			r.fail("open", "open(%s): %v", st.Opts, err)
 			return
@@ -760,8 +775,11 @@ func (r *Runner) doStep(st *gen.Step) {
 		var dst *bolt.Bucket
 		if len(st.D) > 0 {
 			dst = r.resolve(st.D)
+			if (dst == nil) != exp.NilDst {
+				r.fail("resolve", "move destination %v resolves to nil=%v, model nil=%v", gen.Path(st.D), dst == nil, exp.NilDst)
+				return
+			}
 			if dst == nil {
-				r.fail("resolve", "move destination %v does not resolve", gen.Path(st.D))
 				return
 			}
 		}
@@ -975,19 +993,25 @@ func (r *Runner) probeClosed() {
 // sync after the meta page was written, where it may be entirely present.
 func (r *Runner) commitWithFault(st *gen.Step) {
 	var k, partial int
-	fmt.Sscanf(strings.TrimPrefix(st.How, "fail:"), "%d:%d", &k, &partial)
 	txid := r.Tx.ID()
-	if r.Tracer == nil {
-		st2 := *st
-		st2.How = ""
-		r.doStep(&st2)
-		return
+	global := !strings.HasPrefix(st.How, "fail:")
+	if global {
+		r.Tracer.Mark()
+	} else {
+		fmt.Sscanf(strings.TrimPrefix(st.How, "fail:"), "%d:%d", &k, &partial)
+		r.Tracer.ArmFault(k, partial)
 	}
-	r.Tracer.ArmFault(k, partial)
 	r.statsFresh = true
 	err := r.Tx.Commit()
 	r.Tx = nil
-	counted, firedOp, _, metaWritten := r.Tracer.DisarmFault()
+	var counted int
+	var firedOp string
+	var metaWritten bool
+	if global {
+		counted, firedOp, _, metaWritten = r.Tracer.SinceMark()
+	} else {
+		counted, firedOp, _, metaWritten = r.Tracer.DisarmFault()
+	}
 	fo := FaultOutcome{K: k, Events: counted, FiredOp: firedOp, MetaWritten: metaWritten}
 	if firedOp == "" {
 		// the commit issued fewer than k events: an ordinary commit
@@ -1010,9 +1034,32 @@ func (r *Runner) commitWithFault(st *gen.Step) {
 	}
 	fo.Err = err.Error()
 	if firedOp == "mmap" {
-		// the DB object is unmapped by design; content is judged after reopen by the driver
+		// The DB object is left unmapped by design. "Proceeds without blocking" then means: every
+		// later Begin returns promptly (a transaction or ErrInvalidMapping); content and accounting
+		// are judged after close and reopen.
 		r.Sim.Apply(&gen.Step{Op: "rollback"})
 		r.FaultLog = append(r.FaultLog, fo)
+		r.Stats.Transitions["failed-commit:mmap"]++
+		for _, w := range []bool{true, false} {
+			tx, berr := r.DB.Begin(w)
+			if berr == nil {
+				_ = tx.Rollback()
+			} else if !errors.Is(berr, berrors.ErrInvalidMapping) {
+				r.fail("fault:unusable", "Begin(%v) after a failed remap: %v", w, berr)
+			}
+		}
+		if cerr := r.DB.Close(); cerr != nil {
+			r.fail("fault:unusable", "Close after a failed remap: %v", cerr)
+		}
+		db, oerr := Open(r.Path, r.opts)
+		if oerr != nil {
+			r.DB = nil
+			r.fail("fault:unusable", "reopen after a failed remap: %v", oerr)
+			return
+		}
+		r.DB = db
+		r.statsFresh = false
+		r.quiescent("after failed remap and reopen")
 		if r.OnFailed != nil {
 			r.OnFailed(r, false)
 		}
@@ -1028,7 +1075,9 @@ func (r *Runner) commitWithFault(st *gen.Step) {
 	fo.Present = present
 	r.FaultLog = append(r.FaultLog, fo)
 	if present {
-		if !(firedOp == "fdatasync" && metaWritten) {
+		// allowed only if the meta page content had completely reached the file before the failure
+		// (the failing call is then the final sync, or a meta write torn behind its meaningful bytes)
+		if !metaWritten || !(firedOp == "fdatasync" || firedOp == "write") {
 			r.fail("fault:visible", "commit failed at event %d (%s, meta page written: %v) but the transaction is in effect", k, firedOp, metaWritten)
 			return
 		}
